@@ -977,9 +977,9 @@ func TestVerif_C10_BarrierHistories(t *testing.T) {
 	shard, nshards := kit.Shard()
 	r := kit.NewResult(t, "c10-barrier-histories", seed, "seeded random histories (8..25 operations) on an AESGCMBarrier over an in-memory probe store (transactional and not, root and namespaced meta prefix): put / put-in-transaction / delete / encrypt / rotate(+create-upgrade) / rotate-root-key (also invalid sizes) / reload / persist-keyring-only / seal / unseal (always preceded by wrong, truncated, stale and malformed keys) / restart / destroy-upgrade / standby unseal-follow-seal on a second instance; after every unseal, restart, standby follow and at the end the reference model (live entries, current root key, 1+rotations = active term, upgrade entries) is compared with the barrier, its physical record headers and the keyring a fresh node loads; while sealed every data and key operation must be refused without touching the store and the keyring must be nil and zeroised. A history is non-trivial when it completed a rotation or root-key rotation and afterwards read entries back after an unseal/restart/standby follow; distinct by its operation-kind sequence")
 	defer r.Write(t)
-	n := kit.N(320, 6000)
+	n := kit.N(800, 24000)
 	for h := 0; h < n; h++ {
-		if h%nshards != shard {
+		if (h/8)%nshards != shard {
 			continue
 		}
 		tx := h%2 == 0
@@ -1006,19 +1006,22 @@ func TestVerif_C10_BarrierHistories(t *testing.T) {
 		}
 	}
 	div := int64(nshards)
-	r.Require("rotations", 300/div)
-	r.Require("root_rotations", 150/div)
-	r.Require("seals", 150/div)
-	r.Require("unseals_ok", 300/div)
-	r.Require("wrong_key_unseals_refused", 600/div)
-	r.Require("sealed_api_calls_refused", 3000/div)
-	r.Require("zeroize_checks", 150/div)
-	r.Require("entries_read_back_across_rotation", 500/div)
-	r.Require("fresh_put_term_checks_after_rotation", 200/div)
-	r.Require("standby_follows_ok_behind", 40/div)
-	r.Require("standby_follows_ok_root_stale", 20/div)
-	r.Require("persisted_restart_checks", 200/div)
-	r.Require("ciphertexts_reopened", 100/div)
+	r.Require("rotations", 800/div)
+	r.Require("root_rotations", 400/div)
+	r.Require("seals", 400/div)
+	r.Require("unseals_ok", 1500/div)
+	r.Require("wrong_key_unseals_refused", 5000/div)
+	r.Require("wrong_key_kind:previous-root-key", 100/div)
+	r.Require("sealed_api_calls_refused", 20000/div)
+	r.Require("sealed_begin_tx_granted_ops_checked", 500/div)
+	r.Require("zeroize_checks", 800/div)
+	r.Require("entries_read_back_across_rotation", 1500/div)
+	r.Require("fresh_put_term_checks_after_rotation", 600/div)
+	r.Require("standby_follows_ok_behind", 150/div)
+	r.Require("standby_follows_ok_root_stale", 80/div)
+	r.Require("standby_follows_ok_behind_and_root_stale", 30/div)
+	r.Require("persisted_restart_checks", 700/div)
+	r.Require("ciphertexts_reopened", 1000/div)
 }
 
 // c10Op is one key operation whose physical writes are cut at every prefix.
@@ -1087,12 +1090,12 @@ func TestVerif_C10_BarrierCrash(t *testing.T) {
 	shard, nshards := kit.Shard()
 	r := kit.NewResult(t, "c10-barrier-crash", seed, "for each key operation of the barrier (rotate, rotate+create-upgrade, rotate-root-key, the two keyring-only persists, and a mixed sequence) after a seeded random pre-history: the operation runs on a journaling store; for every prefix k of its physical writes a fresh barrier instance is started on the store as a crash after k writes leaves it and unsealed with the pre-operation root key or the new one (k=0 must open with the old, k=all with the new); every entry written before the operation must read back, a fresh write must carry the loaded active term (never below the pre-operation term). Additionally a standby that was in sync before the operation is promoted on the prefix store (observation only). Every (operation, pre-history, prefix) is a distinct case")
 	defer r.Write(t)
-	rounds := kit.N(6, 60)
+	rounds := kit.N(12, 240)
 	ops := c10CrashOps()
 	for round := 0; round < rounds; round++ {
 		for oi, op := range ops {
 			idx := round*len(ops) + oi
-			if idx%nshards != shard {
+			if (round/4)%nshards != shard {
 				continue
 			}
 			tx := round%2 == 0
@@ -1153,10 +1156,10 @@ func TestVerif_C10_BarrierCrash(t *testing.T) {
 			}
 		}
 	}
-	r.Require("prefixes_checked", int64(100/nshards))
-	r.Require("prefixes_opened_with_old_key_only", int64(10/nshards))
-	r.Require("prefixes_opened_with_new_key_only", int64(10/nshards))
-	r.Require("entries_read_back_after_crash", int64(500/nshards))
+	r.Require("prefixes_checked", int64(300/nshards))
+	r.Require("prefixes_opened_with_old_key_only", int64(50/nshards))
+	r.Require("prefixes_opened_with_new_key_only", int64(50/nshards))
+	r.Require("entries_read_back_after_crash", int64(1000/nshards))
 }
 
 var c10Noted = map[string]bool{}
@@ -1275,7 +1278,7 @@ func c10CrashPrefix(e *c10B, opName string, j []kit.Mutation, k int, oldRoot, ne
 	}
 	if err != nil {
 		r.Count("observation_standby_promotion_refused_on_prefix", 1)
-		if nk := fmt.Sprintf("%s:%d", opName, k); !c10Noted[nk] && len(c10Noted) < 12 {
+		if nk := fmt.Sprintf("%s:%d", opName, k); !c10Noted[nk] && len(c10Noted) < 6 {
 			c10Noted[nk] = true
 			r.Note("observation (not a verdict): a standby in sync before %s cannot reload keys on the store cut after write %d/%d (%v); the node shuts itself down and comes back through a normal unseal, which the check above showed to work", opName, k, len(j), err)
 		}
